@@ -70,6 +70,7 @@ func readDiff(s string) (Diff, error) {
 			return errorAt(i, transitionErr)
 		}
 		// Process line.
+		verifState, verifLen := state, len(diff)
 		switch header {
 		case "^":
 			if state == ADD || state == REMOVE {
@@ -163,6 +164,7 @@ func readDiff(s string) (Diff, error) {
 		default:
 			errorfAt(i, "Unexpected %v.", dl[0])
 		}
+		verifReadTransition(verifState, dl[0], len(diff) > verifLen)
 	}
 	if state == META {
 		// ^ is not a valid terminal state.
